@@ -469,6 +469,42 @@ def run(ck):
                             [float(g.axis.data[0]), float(g.axis.data[-1])], [100.0, 222.5])
             except Exception as e:
                 ck.fail("raises:parcel:axis-after-import", "raised %r" % (e,), inp)
+        # ---- several objects written one after another into ONE open file and read back in the same order ---------------------
+        for rnd2 in range(ck.n(3, 12)):
+            pool, H = build_pool()
+            names = sorted(pool)
+            rng.shuffle(names)
+            names = names[:rng.randint(2, 5)]
+            if rnd2 == 0:
+                names = names + names[:1]              # the same object twice in one stream
+            fnm = os.path.join(tmp, "many.qrp")
+            inp = {"scenario": "objects saved one after another into one open file, loaded back in order", "classes": names}
+            ck.case(("parcel-stream", tuple(names), rnd2), nontrivial=True, kind="parcel", cls="stream", save_ctx="none", load_ctx="none")
+            try:
+                refs = [observe(pool[nm][1], pool[nm][0]) for nm in names]
+                with quiet():
+                    with open(fnm, "wb") as fh:
+                        for nm in names:
+                            pool[nm][0].save(fh)
+                    with open(fnm, "rb") as fh:
+                        back = [load_parcel(fh) for nm in names]
+            except Exception as e:
+                ck.fail("raises:parcel:stream", "saving to / loading from an open file raised %r" % (e,), inp)
+                continue
+            for nm, ref, o2 in zip(names, refs, back):
+                try:
+                    if type(o2) is not type(pool[nm][0]):
+                        ck.fail("values:parcel:stream", "object number %d read from the stream is a %s, saved was a %s" %
+                                (names.index(nm), type(o2).__name__, type(pool[nm][0]).__name__), inp)
+                        continue
+                    got = observe(pool[nm][1], o2)
+                    for k in ref:
+                        a, b = numpy.asarray(ref[k]), numpy.asarray(got.get(k))
+                        if a.shape != b.shape or (a.size and float(numpy.abs(a - b).max()) != 0.0):
+                            ck.fail("values:parcel:stream", "observable `%s` of the %s read from the stream differs from the saved one" % (k, nm), inp)
+                            break
+                except Exception as e:
+                    ck.fail("raises:parcel:stream", "reading the %s loaded from the stream raised %r" % (nm, e), inp)
     finally:
         shutil.rmtree(tmp, ignore_errors=True)
 
